@@ -66,6 +66,10 @@ fn main() {
             let s = conv::run(seed, args.usize("rounds", 50));
             report::write_out(out, &s.to_json("C18", seed));
         }
+        "c18chain" => {
+            let s = c08::run_c18_chains(seed, args.usize("runs", 100000), workers);
+            report::write_out(out, &s.to_json("C18", seed));
+        }
         "c18p" if args.flag("once") => {
             let s = c18p::run_once(seed, args.usize("shard", 0), args.usize("of", 1), args.str("only"));
             report::write_out(out, &s.to_json("C18", seed));
@@ -104,6 +108,7 @@ fn main() {
                     c08::replay(&j)
                 }
                 "C17" => c17::replay(&j),
+                "C18" if j["part"].as_str() == Some("chain") => c08::replay_c18_chain(&j),
                 "C18" if j["part"].as_str() == Some("P") => c18p::replay(&j),
                 "C18" if j["part"].as_str() == Some("I") => c18i::replay(&j),
                 "C18" if j["part"].as_str() == Some("conv") && j.get("rounds").is_some() => conv::replay(&j),
